@@ -1,9 +1,9 @@
 from .. import scans
-from .common import CLOSED_HYDRO, generic_replay
+from .common import fams, generic_replay, PATTERNS
 
 
 def run(tier):
-    return scans.scan_check("C02", ("RH.",), {"RH"}, dict(CLOSED_HYDRO), tier)
+    return scans.scan_check("C02", ("RH.",), {"RH"}, fams({'RH'}), tier, require_patterns=PATTERNS)
 
 
 def replay(path):
